@@ -1330,6 +1330,8 @@ impl<'a, R: FileManager> FrontendCtx<'a, R> {
             return self.error(&anchor, DiagnosticInfoMessage::TypeArgumentCountMismatch);
         }
 
+        // lexical scope, as for type aliases
+        let outer_scope = std::mem::take(&mut self.type_application_stack);
         for (k, v) in type_params.iter().zip(type_args.iter()) {
             self.type_application_stack
                 .push((k.name.sym.to_string(), v.clone()));
@@ -1343,9 +1345,7 @@ impl<'a, R: FileManager> FrontendCtx<'a, R> {
             Some(self.extract_interface_extends(&typ.extends, file.clone()))
         };
 
-        for _ in type_params {
-            self.type_application_stack.pop();
-        }
+        self.type_application_stack = outer_scope;
 
         let r = inferred;
 
@@ -1544,13 +1544,14 @@ impl<'a, R: FileManager> FrontendCtx<'a, R> {
                                 .error(anchor, DiagnosticInfoMessage::TypeArgumentCountMismatch);
                         }
 
+                        // type parameters are lexically scoped: the body of this declaration sees its
+                        // own parameters only, not those of whichever generic happens to be expanding it
+                        let outer_scope = std::mem::take(&mut self.type_application_stack);
                         for (param, arg) in type_params.into_iter().zip(type_args.iter()) {
                             self.type_application_stack.push((param, arg.clone()));
                         }
                         let runtype = self.extract_type(&decl.type_ann, address.file.clone());
-                        for _ in type_args {
-                            self.type_application_stack.pop();
-                        }
+                        self.type_application_stack = outer_scope;
                         let runtype = runtype?;
                         Ok(self.with_jsdoc(&address.file, declaration_span, runtype))
                     }
